@@ -195,6 +195,24 @@ def implies_le(path, x, y, upto=None, strict=False, norm=None):
         return "min() with the length"
     if A.is_int(sx) and sx[1] == 0 and not strict:
         return "zero"
+    # library fact: partition_point / binary_search over v return a position in 0..=len(v); one less than a non-zero
+    # such position is an index of v (the subtraction itself is guarded by the overflow check)
+    def _pp(t_):
+        t_ = U.strip(t_)
+        if t_[0] == "ret" and str(t_[1]).rsplit("::", 1)[-1].split("::<")[0] in (
+                "partition_point", "binary_search", "binary_search_by", "binary_search_by_key") and t_[2]:
+            return t_[2][0]
+        if t_[0] in ("vfield",) and isinstance(t_[1], tuple):
+            return _pp(t_[1])  # the usize inside Ok(i) / Err(i) of a binary search
+        return None
+    if sy[0] == "len":
+        v_ = _pp(sx)
+        if v_ is not None and not strict and U.strip(norm(("len", v_))) == sy:
+            return "partition point of the same vector"
+        if strict and sx[0] == "bin" and sx[1] == "Sub" and A.is_int(U.strip(sx[3])) and U.strip(sx[3])[1] >= 1:
+            v_ = _pp(sx[2])
+            if v_ is not None and U.strip(norm(("len", v_))) == sy:
+                return "one below a partition point of the same vector"
     if strict:
         # an index found by position()/rposition() over the indexed vector is below its length
         pos = _position_call(sx)
